@@ -1,7 +1,7 @@
 (** Extraction of the C17 model (MM17) for the correspondence check.
     Directives: [ExtrOcamlBasic] only; [string]/[ascii]/[nat] stay Coq inductives. *)
 From Coq Require Import Extraction ExtrOcamlBasic.
-From Pi2 Require Import MM17.Ast MM17.Print MM17.Parse MM17.Wf MM17.Slice MM17.SliceSpec MM17.Verify.
+From Pi2 Require Import MM17.Ast MM17.Print MM17.Parse MM17.Wf MM17.Slice MM17.SliceSpec MM17.Verify MM17.VerifySpec.
 Extraction Language OCaml.
 Extraction "mm17_model.ml" print_db parse_db wf_db slice_database slice sguards_fixed sguards_pinned
-  consistent declares_all mm_verify scope_agree.
+  consistent declares_all mm_verify scope_agree sym_disjoint compressed_lemma.
